@@ -57,6 +57,9 @@ def regex_family(ns):
     for n in non_root:
         fam.append("^" + re.escape(n) + "$")
         fam.append(re.escape(n))
+        # the bare module name used as a pattern: its dots are wildcards and it is matched as a prefix, so it
+        # stands for the module, its sub modules and every sibling whose name extends it
+        fam.append(n)
         last = n.split(".")[-1]
         fam.append(".*" + re.escape(last) + "$")
         fam.append(".*\\." + re.escape(last) + "$")
